@@ -72,8 +72,15 @@ func refString(u uint64) string {
 	return fmt.Sprintf("%02d%02d%02d%02d%02d%07d%05d", r.Month, r.Day, r.Hour, r.Minute, r.Second, r.Gateway, r.Sequence)
 }
 
+// the first ids this process ever handled: checked once more at the end of the run (TestZFirstAgain), after
+// hundreds of thousands of other ids have gone through the same functions
+var firstIDs []uint64
+
 func checkID(c ID) *vk.Violation {
 	u := c.U
+	if len(firstIDs) < 16 && u != 0 {
+		firstIDs = append(firstIDs, u)
+	}
 	switch c.First {
 	case "parse":
 		if u != 0 {
@@ -267,5 +274,22 @@ func TestColdStart(t *testing.T) {
 	rec.Eval()
 	if v := vk.ColdEval("tuple", tu); v != nil {
 		rec.Report(t, "cold", v)
+	}
+}
+
+// TestZFirstAgain runs last (tests run in source order): the ids formatted first in this process must still
+// format and parse correctly after everything else - a bounded memo that wraps, a table that fills up.
+func TestZFirstAgain(t *testing.T) {
+	// make sure more distinct ids than any 16-bit sized memo holds have been formatted in this process
+	for i := uint64(1); i <= 70000; i++ {
+		_ = cmpp.MsgID2String(i<<20 | i)
+	}
+	for _, u := range firstIDs {
+		rec.Eval()
+		rec.Class("first_ids_checked_again_at_the_end")
+		if v := checkID(ID{U: u}); v != nil {
+			v.Key = "after-70000-other-ids/" + v.Key
+			rec.Report(t, "id", v)
+		}
 	}
 }
